@@ -38,7 +38,10 @@ RULE = ('three real simulators on the same (block, initial registers/memories, i
         'initial map and run-time writes use addresses k, k+256, k+512, k+2^32 (one bucket of the 256-bucket C hash map), '
         'inserted in different cycles in a shuffled order, a disabled write to a further colliding key, overwrites inside '
         'and at the end of a chain, read-back of every address in several orders on two read ports, final inspect_mem at '
-        'every touched address and untouched neighbours; (2) random API-built designs (gen_designs, probe Outputs on every internal '
+        'every touched address and untouched neighbours; (1c) module designs: one sub-module builder instantiated 2-3 '
+        'times, so the design holds several MemBlocks all named "scratch" and RomBlocks all named "lut" with different '
+        'contents (memory names need not be unique), plus near-miss names, every memory with its own initial map, '
+        'shared or separate address inputs; (2) random API-built designs (gen_designs, probe Outputs on every internal '
         'wire; alternately wide_prob 0.55 and small ones cheap enough to synthesize) plus a few raw truncating '
         'nets; each also optimized and, when its gate count allows, synthesized (merge_io_vectors True/False); a case = '
         '(block variant, stimulus), distinct by hash of its Simulation trace, non-trivial when at least '
@@ -201,6 +204,63 @@ def random_design(rng, small):
     add_raw_nets(rng, block, pool, rng.randint(1, 3) if small else rng.randint(2, 6), 'z',
                  with_xcs=(rng.random() < 0.3))
     return d
+
+
+def modules_design(rng):
+    """a top level that instantiates the same sub-module builder several times.  Memory names, unlike wire
+    names, need not be unique (Block.sanity_check does not look at them; Simulation keys memories by id), so
+    every instance carries a MemBlock called 'scratch' and a RomBlock called 'lut' with its OWN contents,
+    next to memories whose names are near misses ('scratch_', 'scratch0')."""
+    pyrtl.reset_working_block()
+    block = pyrtl.working_block()
+    d = gen_designs.Design(block)
+    aw = rng.choice([2, 3, 4])
+    dw = rng.choice([5, 8, 33, 64, 65, 129])
+    n_inst = rng.choice([2, 2, 3])
+    share_addr = rng.random() < 0.6
+    if share_addr:
+        waddr, raddr = pyrtl.Input(aw, 'waddr'), pyrtl.Input(aw, 'raddr')
+        d.inputs += [waddr, raddr]
+
+    def scratchpad(k, name, romname):
+        wa = waddr if share_addr else pyrtl.Input(aw, 'waddr%d' % k)
+        ra = raddr if share_addr else pyrtl.Input(aw, 'raddr%d' % k)
+        wdata, we = pyrtl.Input(dw, 'd%d' % k), pyrtl.Input(1, 'we%d' % k)
+        d.inputs.extend(([] if share_addr else [wa, ra]) + [wdata, we])
+        mem = pyrtl.MemBlock(bitwidth=dw, addrwidth=aw, name=name, max_read_ports=None,
+                             max_write_ports=None, asynchronous=True)
+        mem[wa] <<= pyrtl.MemBlock.EnabledWrite(wdata, we)
+        vals = [gen_designs.boundary_value(rng, dw) for _ in range(1 << aw)]
+        rom = pyrtl.RomBlock(bitwidth=dw, addrwidth=aw, romdata=list(vals), name=romname,
+                             max_read_ports=None, asynchronous=True)
+        rom._verif_table = list(vals)
+        d.mems.append(mem)
+        d.roms.append(rom)
+        q = pyrtl.as_wires(mem[ra])
+        l = pyrtl.as_wires(rom[ra])
+        probe(block, 'q%d' % k, q)
+        probe(block, 'l%d' % k, l)
+        acc = pyrtl.Register(dw, 'acc%d' % k)
+        acc.next <<= (acc + (q ^ l))[:dw]
+        d.regs.append(acc)
+        probe(block, 's%d' % k, acc)
+    for k in range(n_inst):
+        scratchpad(k, 'scratch', 'lut')
+    for k, nm in enumerate(rng.sample(['scratch_', 'scratch0', 'Scratch', 'scratc'], rng.randint(0, 2))):
+        scratchpad(n_inst + k, nm, 'lut' + nm[-1])
+    d.ops = ['modules:%d-same-named' % n_inst]
+    return d
+
+
+def distinct_memmaps(rng, block, memmap):
+    """every (non-ROM) memory gets its own non-empty initial contents"""
+    for m in block_mems(block):
+        if isinstance(m, pyrtl.RomBlock):
+            continue
+        c = memmap.setdefault(m, {})
+        a = rng.randrange(1 << m.addrwidth)
+        c[a] = ((m.id * 37 + 1 + rng.getrandbits(m.bitwidth)) % ((1 << m.bitwidth) - 1)) + 1
+    return memmap
 
 
 MEMHASH_AW = [9, 12, 16, 33]
@@ -518,7 +578,7 @@ def replay_dict(ctx, case, extra=None):
            'nets': [str(n) for n in case.get('ordered_nets', [])][:250],
            'inputs': case['inputs'], 'default_value': case['dflt'],
            'regmap': {r.name: v for r, v in case['regmap'].items()},
-           'memmap': {m.name: c for m, c in case['memmap'].items()}}
+           'memmap': {'%s#id%d' % (m.name, m.id): c for m, c in case['memmap'].items()}}
     rep.update(extra or {})
     return rep
 
@@ -661,6 +721,10 @@ def run(ctx):
     for i in range(n_sweep):
         rng = ctx.sub_rng('sweep', i)
         designs.append(('sweep', i, sweep_design(rng, SWEEP_WIDTHS[i % 6], i // 6)))   # i//6 % 3 == 2: with truncating x/c/s
+    n_modules = 6 if quick else 60
+    for i in range(n_modules):                    # one sub-module instantiated several times
+        rng = ctx.sub_rng('modules', i)
+        designs.append(('modules', i, modules_design(rng)))
     n_memhash = 8 if quick else 48
     for i in range(n_memhash):                    # hash-map collisions in the C memories
         rng = ctx.sub_rng('memhash', i)
@@ -684,6 +748,9 @@ def run(ctx):
                 if variant == 'synth-unmerged':
                     continue                      # its inputs are per-bit; the other three variants cover it
                 regmap, memmap, inputs, mem_addrs = memhash_stimulus(rng, block, d.aw, d.dw)
+            elif family == 'modules':
+                regmap, memmap, inputs = make_stimulus(rng, block, ncyc + 6)
+                memmap = distinct_memmaps(rng, block, memmap)
             else:
                 regmap, memmap, inputs = make_stimulus(rng, block, ncyc)
             has_mem = any(not isinstance(m, pyrtl.RomBlock) for m in block_mems(block))
